@@ -1,26 +1,16 @@
 from common import *
 
 
-def _finding_flags():
-    """The scenarios that exhibit a known finding run only once the finding is listed in
-    known_findings.json (otherwise they would be reported as violations)."""
-    import vlib
-    known = {k["pattern"] for k in vlib.load_known() if k["property"] == "C06" and k["status"] == "known"}
-    flags = []
-    for pat, flag in (("C06-udp-zero-checksum", "-udpzero"), ("C06-ping6-no-pseudo-header", "-ping6"),
-                      ("C06-ndp-solicit-zero-src-mac", "-ndpmac")):
-        if pat in known:
-            flags.append(flag)
-    return flags
-
-
 SPEC = dict(
     id="C06", corr="Corr.C06", driver="h_c06", overlay=True,
     targets=["Properties/C06.vo", "Corr/C06.vo"],
-    args=lambda tier, seed: ["-seed", seed, "-n", 1 if tier == "quick" else 8, "-routes", 60 if tier == "quick" else 150] + _finding_flags(),
-    search_args=lambda seed: ["-seed", seed, "-n", 1, "-routes", 100] + _finding_flags(),
+    args=lambda tier, seed: ["-seed", seed, "-n", 1 if tier == "quick" else 8, "-routes", 60 if tier == "quick" else 150],
+    search_args=lambda seed: ["-seed", seed, "-n", 1, "-routes", 100],
     shard=90, timeout=2400, search_rounds=2,
-    patterns={2: "C06-udp-zero-checksum", 3: "C06-ping6-no-pseudo-header", 4: "C06-ndp-solicit-zero-src-mac"},
+    # no known-finding patterns: the former codes 2..4 (C06-udp-zero-checksum, C06-ping6-no-pseudo-header,
+    # C06-ndp-solicit-zero-src-mac) were repaired in /repo (723c609, 65b8ba4, 8cee966) and are plain
+    # violations now; the driver generates the inputs that exhibited them on every run, ungated
+    patterns={},
     rule="every frame captured at the link layer of real stacks driven through a scenario sweep, one case per frame with the scenario's identity "
          "(addresses, ports, MACs): UDP writes of 0/1/2/3/8/9/40/41/odd/even/1472/1473 and, once per run, 65506..65508 (IPv4) / 65526..65528 (IPv6) bytes "
          "from bound/unbound, connected/unconnected sockets; TCP against a scripted peer: passive opens for all 16 combinations of the peer's "
@@ -28,8 +18,12 @@ SPEC = dict(
          "three out-of-order islands (SACK blocks), hole filled, orderly FIN or abort (RST) - IPv4 on a plain link plus eight rotating variants over IPv6, checksum-offload, "
          "resolution-required and fd-based Ethernet (socketpair) links with MTU 576/1500/9000; RSTs to segments for closed ports; ICMPv4/ICMPv6 echo "
          "replies (payload 0,1,2,3,56,57,even,odd); neighbour advertisements and ARP replies; the stack's own ARP requests / neighbour solicitations "
-         "followed by datagrams to the resolved next hop (direct and through a gateway); two NICs with three route tables (first match, not longest "
-         "prefix; bound source address; ErrNoRoute); echo requests of the ping transport; CIds = the IPv4 headers of all packets of each IPv4 "
+         "followed by datagrams to the resolved next hop (direct and through a gateway; neighbour solicitations also through the fd-based link, whose "
+         "Ethernet source must be the NIC's address - regression watch for 8cee966); two NICs with three route tables (first match, not longest "
+         "prefix; bound source address; ErrNoRoute); echo requests of the ping transport, IPv4 and IPv6 (IPv6 also over Ethernet), data of "
+         "0,1,2,3,8,56,57,odd,even,~1400 bytes (regression watch for 65b8ba4: ICMPv6 checksum with pseudo-header); UDP datagrams whose checksum "
+         "computes to zero, six distinct ones per address family and link (10.0.0.1:4568->10.0.0.2:5535 payload c4 60 and searched ones of 2, 3, "
+         "even, odd and 1472 bytes; plain link every round, Ethernet once per run): the field must be 0xffff (regression watch for 723c609); CIds = the IPv4 headers of all packets of each IPv4 "
          "scenario's flow; CRoute = Stack.FindRoute on random route tables (0-5 entries, missing NICs, 0.0.0.0/broadcast addresses, NIC filter, "
          "bound local address, empty remote, IPv4/IPv6). Inbound packets are injected as single views. A case is trivial (tag 0) only for a "
          "one-packet flow or an empty route table; distinct = distinct case lines",
@@ -37,7 +31,7 @@ SPEC = dict(
                   "Print Assumptions: every C06 theorem is closed under the global context (no axioms)",
                   "the driver's lossless frame compression (arithmetic-progression runs), checked against the captured bytes before printing",
                   "modelled, not verified: connect.go sendTCP/sendSynTCP/makeSynOptions/makeOptions, udp sendUDP, ipv4/ipv6 WritePacket, ipv4 sendPing4, "
-                  "ipv6 icmp.go (echo reply, neighbour advertisement, LinkAddressRequest, icmpChecksum), arp.go, ping sendPing4/6, fdbased WritePacket, "
+                  "ipv6 icmp.go (echo reply, neighbour advertisement, LinkAddressRequest, icmpChecksum), arp.go, ping sendPing4/sendPing6, fdbased WritePacket, "
                   "stack FindRoute + nic primaryEndpoint/findEndpoint (hand-written Gallina model Model/Emit.v over the shared header/option/checksum "
                   "models, tied by re-encoding every captured frame)",
                   "independent side: Model/Rfc.v (wf_frame) written from the RFC layouts with a plain byte reader and the RFC 1071 sum"],
